@@ -32,6 +32,51 @@ class Sym(object):
     __slots__ = ()
 
 
+_REL = {z3.Z3_OP_EQ: 'eq', z3.Z3_OP_DISTINCT: 'ne', z3.Z3_OP_LE: 'le', z3.Z3_OP_LT: 'lt',
+        z3.Z3_OP_GE: 'ge', z3.Z3_OP_GT: 'gt'}
+_FLIP = {'eq': 'eq', 'ne': 'ne', 'le': 'ge', 'lt': 'gt', 'ge': 'le', 'gt': 'lt'}
+_OPS = {'eq': lambda a, b: a == b, 'ne': lambda a, b: a != b, 'le': lambda a, b: a <= b,
+        'lt': lambda a, b: a < b, 'ge': lambda a, b: a >= b, 'gt': lambda a, b: a > b}
+
+
+def _interval(op, lo, hi, v):
+    """var in [lo, hi] (None = unbounded) OP v"""
+    if op == 'eq':
+        if (lo is not None and v < lo) or (hi is not None and v > hi):
+            return False
+        if lo == hi == v:
+            return True
+        return None
+    if op == 'ne':
+        r = _interval('eq', lo, hi, v)
+        return None if r is None else (not r)
+    if op == 'le':
+        if hi is not None and hi <= v:
+            return True
+        if lo is not None and lo > v:
+            return False
+        return None
+    if op == 'lt':
+        if hi is not None and hi < v:
+            return True
+        if lo is not None and lo >= v:
+            return False
+        return None
+    if op == 'ge':
+        if lo is not None and lo >= v:
+            return True
+        if hi is not None and hi < v:
+            return False
+        return None
+    if op == 'gt':
+        if lo is not None and lo > v:
+            return True
+        if hi is not None and hi <= v:
+            return False
+        return None
+    return None
+
+
 class Engine(object):
     def __init__(self, timeout_ms=20000, max_decisions=2000):
         self.timeout_ms = timeout_ms
@@ -39,6 +84,8 @@ class Engine(object):
         self.solver = z3.Solver()
         self.solver.set('timeout', timeout_ms)
         self.decisions = []
+        self.arity = []
+        self.nforks = 0
         self.pos = 0
         self.trail = []
         self.pc = []
@@ -51,11 +98,17 @@ class Engine(object):
         self.choices = []          # values returned by choose() on this path
         self.inputs = {}           # name -> z3 term | list of char terms | ('choice', v)
         self.observed = []         # (key, value)
+        self.hints = []            # optional constraints that steer counterexample search
+        self.ranges = {}
+        self.domains = {}
+        self.divcache = {}
+        self.nquick = 0
         self.active = False        # True while a symbolic path is being run
         self.touched = set()       # qualified names of functions run with a proxy in scope
 
     # -- per path
     def reset_run(self):
+        self.nforks = 0
         self.pos = 0
         self.trail = []
         self.pc = []
@@ -63,6 +116,10 @@ class Engine(object):
         self.choices = []
         self.inputs = {}
         self.observed = []
+        self.hints = []
+        self.ranges = {}
+        self.domains = {}
+        self.divcache = {}
         self.solver.reset()
         self.solver.set('timeout', self.timeout_ms)
 
@@ -95,6 +152,66 @@ class Engine(object):
         self.pc.append(c)
         self.solver.add(c)
 
+    def declare_range(self, var, lo, hi):
+        """record the declared domain of an input/fresh variable (already part of PC)"""
+        self.ranges[var.get_id()] = (lo, hi)
+
+    def declare_domain(self, var, codes):
+        self.ranges[var.get_id()] = (codes[0], codes[-1])
+        if len(codes) <= 64:
+            self.domains[var.get_id()] = codes
+
+    def quick(self, c):
+        """decide a condition from declared variable domains alone: True / False / None"""
+        k = c.decl().kind()
+        if k == z3.Z3_OP_TRUE:
+            return True
+        if k == z3.Z3_OP_FALSE:
+            return False
+        if k == z3.Z3_OP_NOT:
+            r = self.quick(c.arg(0))
+            return None if r is None else (not r)
+        if k == z3.Z3_OP_AND:
+            allt = True
+            for i in range(c.num_args()):
+                r = self.quick(c.arg(i))
+                if r is False:
+                    return False
+                if r is None:
+                    allt = False
+            return True if allt else None
+        if k == z3.Z3_OP_OR:
+            allf = True
+            for i in range(c.num_args()):
+                r = self.quick(c.arg(i))
+                if r is True:
+                    return True
+                if r is None:
+                    allf = False
+            return False if allf else None
+        if k in _REL and c.num_args() == 2:
+            a, b = c.arg(0), c.arg(1)
+            op = _REL[k]
+            if z3.is_int_value(b) and a.get_id() in self.ranges:
+                pass
+            elif z3.is_int_value(a) and b.get_id() in self.ranges:
+                a, b = b, a
+                op = _FLIP[op]
+            else:
+                return None
+            v = b.as_long()
+            dom = self.domains.get(a.get_id())
+            if dom is not None:
+                rs = [_OPS[op](x, v) for x in dom]
+                if all(rs):
+                    return True
+                if not any(rs):
+                    return False
+                return None
+            lo, hi = self.ranges[a.get_id()]
+            return _interval(op, lo, hi, v)
+        return None
+
     def branch(self, cond):
         """cond: z3 Bool.  Returns a python bool, forking if both sides are feasible."""
         if cond is True or cond is False:
@@ -104,28 +221,39 @@ class Engine(object):
             return True
         if z3.is_false(cond):
             return False
+        q = self.quick(cond)
+        if q is not None:
+            self.nquick += 1
+            return q
         if self.pos < len(self.decisions):
-            choice = self.decisions[self.pos]
+            choice, n = self.decisions[self.pos], self.arity[self.pos]
             self.pos += 1
-            self.trail.append((choice, 2))
+            self.trail.append((choice, n))
             self.add(cond if choice == 0 else z3.Not(cond))
             return choice == 0
         can_t = self.check(cond)
         if not can_t:
             # PC is satisfiable by construction, so the negation is
+            self._record(1, 1)
             self.add(z3.Not(cond))
             return False
         can_f = self.check(z3.Not(cond))
         if not can_f:
+            self._record(0, 1)
             self.add(cond)
             return True
-        if len(self.trail) >= self.max_decisions:
+        self.nforks += 1
+        if self.nforks > self.max_decisions:
             raise BoundExceeded('decisions per path > %d' % self.max_decisions)
-        self.trail.append((0, 2))
-        self.pos += 1
-        self.decisions.append(0)
+        self._record(0, 2)
         self.add(cond)
         return True
+
+    def _record(self, choice, n):
+        self.trail.append((choice, n))
+        self.decisions.append(choice)
+        self.arity.append(n)
+        self.pos += 1
 
     def choose(self, n):
         """Structural non-determinism: returns 0..n-1, every value explored."""
@@ -138,11 +266,10 @@ class Engine(object):
             self.pos += 1
             self.trail.append((c, n))
         else:
-            if len(self.trail) >= self.max_decisions:
+            self.nforks += 1
+            if self.nforks > self.max_decisions:
                 raise BoundExceeded('decisions per path > %d' % self.max_decisions)
-            self.decisions.append(0)
-            self.pos += 1
-            self.trail.append((0, n))
+            self._record(0, n)
             c = 0
         self.choices.append(c)
         return c
@@ -154,6 +281,7 @@ class Engine(object):
             c, n = tr[-1]
             if c + 1 < n:
                 self.decisions = [x for x, _ in tr[:-1]] + [c + 1]
+                self.arity = [a for _, a in tr[:-1]] + [n]
                 return True
             tr.pop()
         return False
@@ -382,13 +510,33 @@ class SInt(Sym):
             raise Unsupported('division of symbolic int by %r' % (o,))
         return o
 
+    def _qr(self, d):
+        """floor division by a positive constant with explicit quotient/remainder variables
+        (a == q*d + r, 0 <= r < d): linear constraints instead of div/mod terms"""
+        key = (self.z.get_id(), d)
+        qr = E.divcache.get(key)
+        if qr is None:
+            if z3.is_int_value(self.z):
+                v = self.z.as_long()
+                qr = (z3.IntVal(v // d), z3.IntVal(v % d))
+            else:
+                n = E.fresh_name('qr')
+                q, r = z3.Int(n + '_q'), z3.Int(n + '_r')
+                E.add(self.z == q * d + r)
+                E.add(r >= 0)
+                E.add(r < d)
+                E.declare_range(r, 0, d - 1)
+                qr = (q, r)
+            E.divcache[key] = qr + (self.z,)     # keep the term alive so its id is not reused
+        return qr[0], qr[1]
+
     def __floordiv__(s, o):
         d = s._posdiv(o)
-        return SInt(s.z / d, s.is_float or isinstance(o, float))   # z3 Int div == floor for d > 0
+        return SInt(s._qr(d)[0], s.is_float or isinstance(o, float))
 
     def __mod__(s, o):
         d = s._posdiv(o)
-        return SInt(s.z % d, s.is_float or isinstance(o, float))
+        return SInt(s._qr(d)[1], s.is_float or isinstance(o, float))
 
     def __divmod__(s, o):
         return (s // o, s % o)
